@@ -4,8 +4,11 @@ spec/Kinematics.tla (Mode = "calls") models Celestial.propagate / propagateBulk 
 restart loop with a terminal event, the t_eval grid, the batch of K columns) on an exactly
 integrable law.  TLC proves Semigroup / BulkConsistent / ExactAtBoundaries / StepwiseEqualsRun
 for every reachable state and prints every behaviour (all splits t0 < t1 < t2, batch sizes 1-4,
-output grids with 0-3 interior times, with and without an event between output times) with the
-exact states after every call.  The behaviours are replayed into the real code:
+output grids with 0-3 interior times, with and without an event between output times, and the
+caller passing the event queue in every call or only up to some call - action DropEvents: later
+calls hand over scheduled_events = None / [] to the SAME dynamics object) with the exact states
+after every call.  The named deviation StaleThrust (finite_thrust only reset when events are
+passed) is refuted by TLC.  The behaviours are replayed into the real code:
 
 (a) EXACT  the real Celestial.propagate / propagateBulk driven by `ExactLaw`: every output of every
            column must equal the spec's integers (1e-9): the spec's numbers are the oracle.
@@ -15,6 +18,12 @@ exact states after every call.  The behaviours are replayed into the real code:
            dynamics must also equal the epoch-shift twin; two-body runs must equal the repository's
            closed-form Kepler solution (and an independent one) and conserve energy and angular
            momentum - the logged first integrals are validated by TLC (spec/TraceKinematics.tla).
+           Calls after DropEvents are compared with a FRESH dynamics object that never saw an event,
+           started from the reference state at the drop (the result may depend on epoch and state
+           only, not on the history of the object).  Targeted strata of the same relations: epochs on
+           both sides of calendar boundaries; batches whose columns are in different force regimes
+           (solar radiation pressure on, one column sunlit, one in the Earth's umbra for the whole
+           call, both orders); dropped events while the burn is on, through SpecialPerturbations.
 
 REDUCED STRENGTH: for the real dynamics the numeric comparisons are relations between
 implementation runs (plus closed-form Kepler for two-body); TLC contributes the behaviours, the
@@ -49,14 +58,27 @@ INV03 = ("ExactAtBoundaries", "Semigroup", "BulkConsistent", "StepwiseEqualsRun"
 
 
 def spec_cfg(ctx: Ctx) -> dict:
-    base = dict(Mode='"calls"', BurnChoice='"open"', Kinds="KindsOne", MaxInterior=3, StepLens="{1}", MaxSteps=1)
+    base = dict(Mode='"calls"', BurnChoice='"open"', Kinds="KindsOne", MaxInterior=3, StepLens="{1}", MaxSteps=1,
+                CallerMayDrop="TRUE")
     if ctx.quick:
         return dict(base, Horizon=5, MaxCalls=2, Ks="{1, 2, 3, 4}", Laws="LawsOne")
     return dict(base, Horizon=6, MaxCalls=3, Ks="{1, 2, 3, 4}", Laws="LawsQuick")
 
 
+def dropped(b) -> bool:
+    """The caller stops passing the event queue at tick b["dropAt"] (spec action DropEvents)."""
+    return b.get("dropAt", 10 ** 6) <= b["hor"]
+
+
 def structure(b) -> tuple:
-    return (tuple((c["kind"], len(c["times"]) - 2) for c in b["hist"]), b["K"], b["burn"]["kind"] != "none")
+    return (tuple((c["kind"], len(c["times"]) - 2) for c in b["hist"]), b["K"], b["burn"]["kind"] != "none", dropped(b))
+
+
+def passed_events(call, ci: int, events):
+    """What the caller hands over as `scheduled_events`: the queue, or - after DropEvents - None / [] alternately."""
+    if call.get("q", 1) > 0 or not events:
+        return list(events)
+    return None if ci % 2 else []
 
 
 # ------------------------------------------------------------------ (a) exact law
@@ -83,10 +105,11 @@ def exact_one(b, method: str, tau: float, rng: random.Random, tag: str = "exact-
         try:
             with guard(20.0):
                 if call["kind"] == "single":
-                    res = dyn.propagate(times[0], times[1], x[:, 0] if kk == 1 else x, scheduled_events=list(events))
+                    res = dyn.propagate(times[0], times[1], x[:, 0] if kk == 1 else x,
+                                        scheduled_events=passed_events(call, ci, events))
                     outs = [np.asarray(res, dtype=float).reshape(6, kk)]
                 else:
-                    res = dyn.propagateBulk(times, x, scheduled_events=list(events))
+                    res = dyn.propagateBulk(times, x, scheduled_events=passed_events(call, ci, events))
                     if res.shape != (6, kk, len(times) - 1):
                         return (f"{tag}:bulk-output-shape", f"propagateBulk returned shape {res.shape} for K={kk}, "
                                 f"{len(times) - 1} output times", {"call": ci}), outputs
@@ -106,7 +129,8 @@ def exact_one(b, method: str, tau: float, rng: random.Random, tag: str = "exact-
                 tol_p = max(1e-9 * max(1.0, abs(want[k][0])), 8 * np.spacing(emb.R0 + abs(want[k][0]) * emb.pu) / emb.pu)
                 if off > 1e-6 or not K.close(vv, want[k][1]) or abs(p2 - want[k][0]) > tol_p:
                     sig = f"{tag}:propagate-state" if call["kind"] == "single" else f"{tag}:bulk-output"
-                    return (sig, f"{call['kind']} call over ticks {call['times']} (K={kk}, burn [{burn['ts']},{burn['te']})): output {j + 1} column "
+                    return (sig, f"{call['kind']} call over ticks {call['times']} (K={kk}, burn [{burn['ts']},{burn['te']})"
+                            f"{', events passed' if call.get('q', 1) > 0 else ', NO events passed (same dynamics object)'}): output {j + 1} column "
                             f"{k + 1} is (2p, v) = ({p2:.9f}, {vv:.9f}), spec says {want[k]}", {"call": ci, "output": j, "column": k}), outputs
         x = outs[-1].copy()
     return None, outputs
@@ -130,11 +154,11 @@ def exact_replay(ctx: Ctx, behs, rng: random.Random, tag: str = "exact-law") -> 
             K.flush_events()
             stats["behaviours"] += 1
             stats["outputs"] += n_out
-            ctx.case((tag, tuple(b["law"]), b["hor"], b["K"], b["burn"]["ts"], b["burn"]["te"], tuple(tuple(c["times"]) for c in b["hist"]),
+            ctx.case((tag, tuple(b["law"]), b["hor"], b["K"], b["burn"]["ts"], b["burn"]["te"], b.get("dropAt"), tuple(tuple(c["times"]) for c in b["hist"]),
                       tuple(c["kind"] for c in b["hist"]), method),
                      nontrivial=len(b["hist"]) > 1 or b["K"] > 1 or b["hist"][0]["kind"] == "bulk",
-                     sample={"part": "exact", "law": b["law"], "K": b["K"], "burn": b["burn"], "method": method,
-                             "calls": [[c["kind"], c["times"]] for c in b["hist"]]} if i % 997 == 5 else None)
+                     sample={"part": "exact", "law": b["law"], "K": b["K"], "burn": b["burn"], "method": method, "dropAt": b.get("dropAt"),
+                             "calls": [[c["kind"], c["times"], c.get("q", 1)] for c in b["hist"]]} if i % 997 == 5 else None)
             if bad:
                 sig, what, detail = bad
                 stats["violations"] += 1
@@ -160,7 +184,7 @@ def random_orbit(rng: random.Random):
     return el, x, 2 * math.pi * math.sqrt(a ** 3 / K.MU)
 
 
-def make_dyn(model: str, method: str, tight: bool, jd0: float, rich: bool):
+def make_dyn(model: str, method: str, tight: bool, jd0: float, rich: bool, srp=None):
     from resonaate.dynamics.special_perturbations import SpecialPerturbations
     from resonaate.dynamics.two_body import TwoBody
     from resonaate.physics.time.stardate import JulianDate
@@ -171,10 +195,46 @@ def make_dyn(model: str, method: str, tight: bool, jd0: float, rich: bool):
     else:
         dyn = SpecialPerturbations(JulianDate(jd0), GeopotentialConfig(degree=6 if rich else 4, order=6 if rich else 4),
                                    PerturbationsConfig(third_bodies=["sun", "moon"] if rich else ["moon"],
-                                                       solar_radiation_pressure=rich), 0.02, method=method)
+                                                       solar_radiation_pressure=rich if srp is None else srp), 0.02,
+                                   method=method)
     if tight:   # the driver under test is unchanged; only solve_ivp's tolerances are tightened
         dyn.RELATIVE_TOL, dyn.ABSOLUTE_TOL = TIGHT_RTOL, TIGHT_ATOL
     return dyn
+
+
+R_EARTH = 6378.137   # km (shadow geometry of the driver; the margins below are tens of km)
+
+
+def sun_position(jd: float) -> np.ndarray:
+    """The simulator's own solar ephemeris (trusted input of the stratum design, not a result under test)."""
+    from resonaate.physics.bodies.third_body import Sun
+    return np.asarray(Sun.getPosition(jd), dtype=float).reshape(-1)[:3]
+
+
+def illumination(x0, span_s: float, jd0: float, period: float) -> set:
+    """Driver-side, conservative classification of a column over [0, span]: subset of {"sun", "umbra", "edge"}.
+
+    Cylinder-plus-margin test along the Kepler path (independent closed form): "umbra" / "sun" only when the point is
+    clear of the penumbra by its width (about 0.0047 |d| on either side) plus 60 km plus 10 km per revolution for the
+    difference between the perturbed and the Kepler path; everything else is "edge"."""
+    s0, s1 = sun_position(jd0), sun_position(jd0 + span_s / 86400.0)
+    n = max(3, min(1500, int(span_s / min(60.0, period / 120.0)) + 2))
+    seen = set()
+    for i in range(n):
+        t = span_s * i / (n - 1)
+        r = np.asarray(x0[:3], dtype=float) if t == 0 else K.kepler_independent(x0, t)[:3]
+        sun = s0 + (s1 - s0) * (t / span_s)
+        sh = sun / np.linalg.norm(sun)
+        d = float(r @ sh)
+        perp = float(np.linalg.norm(r - d * sh))
+        pen = 0.01 * abs(d) + 60.0 + 10.0 * span_s / period
+        if d < 0 and perp < R_EARTH - pen:
+            seen.add("umbra")
+        elif d > 0 or perp > R_EARTH + pen:
+            seen.add("sun")
+        else:
+            seen.add("edge")
+    return seen
 
 
 def first_integrals(x):
@@ -200,7 +260,18 @@ def real_one(ctx: Ctx, b, model: str, method: str, tight: bool, tick: float, rng
     else:
         jd0 = boundary + rng.randrange(0, 6 * 3600) / 86400.0
     rich = rng.random() < 0.3
-    dyn = make_dyn(model, method, tight, jd0, rich)
+    drop = b.get("dropAt") if dropped(b) and b["burn"]["kind"] != "none" else None
+    # solar radiation pressure switches off discontinuously at the Earth's shadow: a column that crosses the shadow
+    # boundary during the behaviour makes batch / split runs differ by more than the integrator tolerance on correct code
+    # (shared step-size sequence).  SRP is therefore only switched on when every column stays sunlit, or stays in the
+    # umbra, for the whole horizon; the shadow stratum below places columns in both regimes on purpose.
+    srp = False
+    if rich and model == "sp":
+        span = b["hist"][-1]["times"][-1] * tick
+        srp = all(illumination(o[1], span, jd0, o[2]) in ({"sun"}, {"umbra"}) for o in orbits)
+        stats["srp_on" if srp else "srp_off_shadow_crossing"] = stats.get("srp_on" if srp else "srp_off_shadow_crossing", 0) + 1
+    dyn = make_dyn(model, method, tight, jd0, rich, srp)
+    dyn_free = [None]     # a FRESH object that never sees an event: reference for the calls after DropEvents
     factor = 1.0 if tight else SHIPPED_FACTOR
     burn_dir = np.array([rng.gauss(0, 1) for _ in range(3)])
     burn_dir /= np.linalg.norm(burn_dir)
@@ -210,15 +281,25 @@ def real_one(ctx: Ctx, b, model: str, method: str, tight: bool, tick: float, rng
             return []
         return [ScheduledFiniteBurn(ScenarioTime(b["burn"]["ts"] * tick + offset), ScenarioTime(1.0e9),
                                     partial(eciBurn, acc_vector=BURN_ACC * burn_dir), 1)]
-    desc = {"part": "real", "model": model, "method": method, "tight": tight, "tick_s": tick, "K": kk, "jd0": jd0, "near_calendar_boundary": boundary is not None, "rich": rich,
-            "burn_tick": b["burn"]["ts"], "calls": [[c["kind"], c["times"]] for c in b["hist"]],
+    desc = {"part": "real", "model": model, "method": method, "tight": tight, "tick_s": tick, "K": kk, "jd0": jd0,
+            "near_calendar_boundary": boundary is not None, "rich": rich, "srp": srp, "drop_tick": drop,
+            "burn_tick": b["burn"]["ts"], "calls": [[c["kind"], c["times"], c.get("q", 1)] for c in b["hist"]],
             "orbits": [o[0] for o in orbits]}
     ref_cache: dict = {}
 
     def ref(k: int, t: int):
+        """Separate single-column reference: one unsplit call with the events up to the drop (if any), then - semigroup -
+        one call WITHOUT events on a fresh dynamics object from the reference state at the drop."""
         if (k, t) not in ref_cache:
-            with guard(patience):
-                ref_cache[(k, t)] = np.asarray(dyn.propagate(0.0, t * tick, x0[:, k].copy(), scheduled_events=events()), dtype=float)
+            if drop is not None and t > drop:
+                if dyn_free[0] is None:
+                    dyn_free[0] = make_dyn(model, method, tight, jd0, rich, srp)
+                start = ref(k, drop)
+                with guard(patience):
+                    ref_cache[(k, t)] = np.asarray(dyn_free[0].propagate(drop * tick, t * tick, start.copy()), dtype=float)
+            else:
+                with guard(patience):
+                    ref_cache[(k, t)] = np.asarray(dyn.propagate(0.0, t * tick, x0[:, k].copy(), scheduled_events=events()), dtype=float)
         return ref_cache[(k, t)]
 
     def tol(k: int, t: int):
@@ -239,10 +320,11 @@ def real_one(ctx: Ctx, b, model: str, method: str, tight: bool, tick: float, rng
         try:
             with guard(patience):
                 if call["kind"] == "single":
-                    res = dyn.propagate(times[0], times[1], x[:, 0].copy() if kk == 1 else x.copy(), scheduled_events=events())
+                    res = dyn.propagate(times[0], times[1], x[:, 0].copy() if kk == 1 else x.copy(),
+                                        scheduled_events=passed_events(call, ci, events()))
                     outs = [np.asarray(res, dtype=float).reshape(6, kk)]
                 else:
-                    res = dyn.propagateBulk(times, x.copy(), scheduled_events=events())
+                    res = dyn.propagateBulk(times, x.copy(), scheduled_events=passed_events(call, ci, events()))
                     outs = [np.asarray(res[:, :, j], dtype=float) for j in range(res.shape[2])]
         except Hang:
             fail(f"real:{model}:propagate-does-not-terminate", f"{call['kind']} call {times} did not return within {patience:g} s", {"call": ci})
@@ -267,10 +349,11 @@ def real_one(ctx: Ctx, b, model: str, method: str, tight: bool, tick: float, rng
                 if not trivial:
                     stats["max_ratio"] = max(stats["max_ratio"], dr / tr, dv / tv)
                 if (dr > tr or dv > tv) and not failed:
-                    rel = "bulk-output-vs-separate-call" if call["kind"] == "bulk" else \
+                    rel = "call-without-events-vs-fresh-object" if (drop is not None and t > drop) else \
+                        "bulk-output-vs-separate-call" if call["kind"] == "bulk" else \
                         ("batch-column-vs-single" if ci == 0 else "split-vs-unsplit")
                     fail(f"real:{model}:{rel}", f"call {ci + 1} ({call['kind']} over ticks {call['times']}, K={kk}) output {j + 1} column "
-                         f"{k + 1} differs from the separate unsplit single-column call by {dr:.3g} km / {dv:.3g} km/s "
+                         f"{k + 1} differs from {'a fresh dynamics object without events started at the reference state of the drop' if 'fresh' in rel else 'the separate unsplit single-column call'} by {dr:.3g} km / {dv:.3g} km/s "
                          f"(tolerance {tr:.2g} / {tv:.2g})", {"call": ci, "output": j, "column": k, "dr_km": dr, "dv_kmps": dv})
                     failed = True
                 if model == "tb":
@@ -321,11 +404,15 @@ def real_one(ctx: Ctx, b, model: str, method: str, tight: bool, tick: float, rng
     else:
         # epoch-shift twin: the same absolute epoch written as (start date - D, elapsed seconds + D)
         shift = float(rng.randrange(6 * 3600, 3 * 86400) if boundary else rng.randrange(1, 3 * 86400))
-        dyn2 = make_dyn(model, method, tight, jd0 - shift / 86400.0, rich)
+        dyn2 = make_dyn(model, method, tight, jd0 - shift / 86400.0, rich, srp)
+        dyn2_free = make_dyn(model, method, tight, jd0 - shift / 86400.0, rich, srp) if drop is not None else None
         t_end = b["hist"][-1]["times"][-1]
         for k in range(kk):
             with guard(patience):
-                a1 = np.asarray(dyn2.propagate(shift, shift + t_end * tick, x0[:, k].copy(), scheduled_events=events(shift)), dtype=float)
+                t_ev = t_end if drop is None else drop         # the twin is done in the same two segments
+                a1 = np.asarray(dyn2.propagate(shift, shift + t_ev * tick, x0[:, k].copy(), scheduled_events=events(shift)), dtype=float)
+                if drop is not None:
+                    a1 = np.asarray(dyn2_free.propagate(shift + drop * tick, shift + t_end * tick, a1.copy()), dtype=float)
             a2 = ref(k, t_end)
             tr, tv = tol(k, t_end)
             dr, dv = np.abs(a1[:3] - a2[:3]).max(), np.abs(a1[3:] - a2[3:]).max()
@@ -336,7 +423,7 @@ def real_one(ctx: Ctx, b, model: str, method: str, tight: bool, tick: float, rng
                      f"t0 = {shift} s) and as (start, t0 = 0) differs by {dr:.3g} km / {dv:.3g} km/s (tolerance {tr:.2g} / {tv:.2g})",
                      {"shift_s": shift, "column": k})
                 failed = True
-        del dyn2
+        del dyn2, dyn2_free
     stats["behaviours"] += 1
     ctx.traces_validated += 1
     ctx.case(("real", model, method, tight, tick, structure(b), tuple(round(o[0]["a"]) for o in orbits)), nontrivial=True,
@@ -379,6 +466,85 @@ def epoch_boundary_stratum(ctx: Ctx, rng: random.Random, stats: dict):
                                                                         "method": method, "orbit": el, "span_s": span})
 
 
+def shadow_stratum(ctx: Ctx, rng: random.Random, stats: dict):
+    """BulkConsistent / batch-vs-single with the columns in DIFFERENT force regimes: solar radiation pressure on, one
+    column sunlit for the whole call, another inside the Earth's umbra for the whole call (a low circular orbit in a plane
+    that contains the Sun line, passing the anti-Sun point at mid-call; the umbra lasts ~2000 s there, the calls 450-900 s),
+    in both orders, K = 2..3, single and bulk calls, both integrators, rtol 1e-13.  Every output of every column must
+    equal the separate single-column call.  No column crosses the shadow boundary (checked by `illumination`), so the
+    right-hand side of every column is smooth and the plain tolerance applies."""
+    from resonaate.dynamics.special_perturbations import SpecialPerturbations
+    from resonaate.physics.time.stardate import JulianDate
+    from resonaate.scenario.config.geopotential_config import GeopotentialConfig
+    from resonaate.scenario.config.perturbations_config import PerturbationsConfig
+    cases = [("SU", "single", "RK45", ["sun"]), ("SU", "bulk", "DOP853", []), ("US", "single", "DOP853", ["sun"]),
+             ("USU", "bulk", "RK45", [])]
+    if not ctx.quick:
+        cases += [("SU", "bulk", "RK45", ["sun", "moon"]), ("SU", "single", "DOP853", []), ("SUS", "single", "RK45", []),
+                  ("USU", "single", "DOP853", ["sun"]), ("US", "bulk", "RK45", []), ("SSU", "bulk", "DOP853", ["moon"]),
+                  ("UUS", "single", "RK45", ["sun"]), ("SUU", "bulk", "DOP853", [])]
+    out = {"cases": 0, "comparisons": 0, "max_ratio": 0.0}
+    for ci, (order, kind, method, bodies) in enumerate(cases):
+        span = (450.0, 600.0, 900.0)[ci % 3]
+        jd0 = 2458484.5 + rng.randrange(0, 700) + rng.randrange(0, 86400) / 86400.0
+        sh = sun_position(jd0)
+        sh = sh / np.linalg.norm(sh)
+        cols, periods = [], []
+        for regime in order:
+            w = np.cross(sh, np.array([rng.gauss(0, 1) for _ in range(3)]))
+            w = w / np.linalg.norm(w)
+            a = rng.uniform(6800.0, 7100.0) if regime == "U" else rng.uniform(6800.0, 9000.0)
+            n = math.sqrt(K.MU / a ** 3)
+            th = -0.5 * n * span + rng.uniform(-0.05, 0.05)       # passes the (anti-)Sun point about mid-call
+            axis = -sh if regime == "U" else sh
+            x = np.concatenate((a * (axis * math.cos(th) + w * math.sin(th)), a * n * (-axis * math.sin(th) + w * math.cos(th))))
+            seen = illumination(x, span, jd0, 2 * math.pi / n)
+            if seen != ({"umbra"} if regime == "U" else {"sun"}):
+                raise tlc.MachineryError(f"shadow stratum: column meant to be {regime} is classified {seen}")
+            cols.append(x)
+            periods.append(2 * math.pi / n)
+        dyn = SpecialPerturbations(JulianDate(jd0), GeopotentialConfig(degree=2, order=2),
+                                   PerturbationsConfig(third_bodies=bodies, solar_radiation_pressure=True), 0.02, method=method)
+        dyn.RELATIVE_TOL, dyn.ABSOLUTE_TOL = TIGHT_RTOL, TIGHT_ATOL
+        x0 = np.stack(cols, axis=1)
+        times = [0.0, span] if kind == "single" else [0.0, round(span / 3.0), span]
+        desc = {"part": "shadow", "order": order, "kind": kind, "method": method, "third_bodies": bodies, "jd0": jd0, "span_s": span,
+                "columns": [c.tolist() for c in cols]}
+        try:
+            with guard(600.0):
+                if kind == "single":
+                    outs = [np.asarray(dyn.propagate(0.0, span, x0.copy()), dtype=float).reshape(6, len(cols))]
+                else:
+                    res = dyn.propagateBulk(times, x0.copy())
+                    outs = [np.asarray(res[:, :, j], dtype=float) for j in range(res.shape[2])]
+                refs = [[np.asarray(dyn.propagate(0.0, t, x0[:, k].copy()), dtype=float) for k in range(len(cols))] for t in times[1:]]
+        except Hang:
+            raise tlc.MachineryError("shadow stratum: propagation without events did not return in 600 s")
+        out["cases"] += 1
+        ctx.case(("shadow", order, kind, method, tuple(bodies), span), nontrivial=True, sample=desc if ci == 0 else None)
+        bad = None
+        for j, t in enumerate(times[1:]):
+            for k in range(len(cols)):
+                sc = (1.0 + t / periods[k]) ** 2
+                dr, dv = np.abs(outs[j][:3, k] - refs[j][k][:3]).max(), np.abs(outs[j][3:, k] - refs[j][k][3:]).max()
+                out["comparisons"] += 1
+                out["max_ratio"] = max(out["max_ratio"], dr / (BASE_R * sc), dv / (BASE_V * sc))
+                if (dr > BASE_R * sc or dv > BASE_V * sc) and bad is None:
+                    bad = (j, k, dr, dv, BASE_R * sc, BASE_V * sc)
+        if bad:
+            j, k, dr, dv, tr, tv = bad
+            sig = "real:sp:batch-columns-in-different-force-regimes"
+            stats["violations"] += 1
+            stats["by_signature"][sig] = stats["by_signature"].get(sig, 0) + 1
+            names = {"S": "sunlit", "U": "in the umbra"}
+            ctx.violation(sig, f"(b) real sp/{method} (rtol 1e-13), solar radiation pressure on, batch of columns "
+                          f"[{', '.join(names[c] for c in order)}] for the whole {kind} call of {span:g} s: output {j + 1} column {k + 1} "
+                          f"({names[order[k]]}) differs from its separate single-column call by {dr:.3g} km / {dv:.3g} km/s "
+                          f"(tolerance {tr:.2g} / {tv:.2g})", {**desc, "output": j, "column": k, "dr_km": dr, "dv_kmps": dv})
+    ctx.traces_validated += out["cases"]
+    return out
+
+
 def real_replay(ctx: Ctx, behs, rng: random.Random):
     stats = {"behaviours": 0, "comparisons": 0, "kepler_checks": 0, "epoch_shift_checks": 0, "violations": 0, "max_ratio": 0.0,
              "max_kepler_ratio": 0.0, "max_closed_form_ratio": 0.0, "max_shift_ratio": 0.0, "by_signature": {}, "by_config": {}}
@@ -393,13 +559,22 @@ def real_replay(ctx: Ctx, behs, rng: random.Random):
     tb_ticks = (2.0, 12.0, 120.0, 720.0, 4320.0) if ctx.quick else (2.0, 12.0, 120.0, 720.0, 4320.0, 17280.0, 17280.0)
     sp_ticks = (2.0, 12.0, 120.0) if ctx.quick else (2.0, 12.0, 120.0, 720.0, 2880.0)
     epoch_boundary_stratum(ctx, random.Random(rng.getrandbits(32)), stats)
-    for i in range(n_tb + n_sp):
+    stats["shadow"] = shadow_stratum(ctx, random.Random(rng.getrandbits(32)), stats)
+    # behaviours in which the caller drops the events while the burn is ON, through the perturbed dynamics (the only real
+    # model that reads finite_thrust): a fixed share of the sample, whatever the stratified draw below picks
+    live_drop = sorted((b for b in behs if dropped(b) and b["burn"]["kind"] != "none" and b["burn"]["ts"] < b["dropAt"] and b["K"] <= 2),
+                       key=lambda b: json.dumps(b, sort_keys=True))
+    forced = [live_drop[rng.randrange(len(live_drop))] for _ in range((4 if ctx.quick else 16) if live_drop else 0)]
+    stats["dropped_with_thrust_on_sp"] = len(forced)
+    for i in range(len(forced) + n_tb + n_sp):
+        forced_b = forced[i] if i < len(forced) else None
+        i -= len(forced)
         key = keys[i % len(keys)]
-        b = groups[key][rng.randrange(len(groups[key]))]
-        model = "tb" if i < n_tb else "sp"
+        b = forced_b or groups[key][rng.randrange(len(groups[key]))]
+        model = "sp" if forced_b else ("tb" if i < n_tb else "sp")
         method = ("RK45", "DOP853")[i % 2]
-        tight = (i // 2) % 2 == 0
-        tick = (tb_ticks if model == "tb" else sp_ticks)[(i // 4) % len(tb_ticks if model == "tb" else sp_ticks)]
+        tight = True if forced_b else (i // 2) % 2 == 0
+        tick = 120.0 if forced_b else (tb_ticks if model == "tb" else sp_ticks)[(i // 4) % len(tb_ticks if model == "tb" else sp_ticks)]
         if model == "sp" and b["K"] > 2:      # cost: keep perturbed batches small
             small = [q for q in groups if q[1] <= 2 and q[0] == key[0]] or [q for q in groups if q[1] <= 2]
             key = small[rng.randrange(len(small))]
@@ -452,11 +627,13 @@ def validate_traces(ctx: Ctx, traces: list) -> dict:
 def run(ctx: Ctx):
     rng = random.Random(ctx.seed * 7907 + 3)
     ctx.rule = ("TLC enumerates every behaviour of Kinematics.tla (Mode calls): call sequences (single / bulk with 0-3 interior output "
-                "times) tiling [0, H], batch sizes 1-4, no event or an open-ended burn starting at every interior tick. (a) all "
+                "times) tiling [0, H], batch sizes 1-4, no event or an open-ended burn starting at every interior tick, events passed "
+                "in every call or dropped (None / []) from any call boundary on. (a) all "
                 "behaviours replayed on the exact law; (b) a seeded sample stratified by call structure replayed on real TwoBody / "
                 "SpecialPerturbations x RK45 / DOP853 x (rtol 1e-13 | shipped tolerances), seeded orbits a in [6700, 70000] km "
                 "log-uniform, e <= 0.7, any inclination incl. 0/90/180, tick 2 s .. 4320 s (17280 s in thorough: a day). "
-                "Non-trivial = more than one call, a batch, or a bulk call.")
+                "Fixed strata: 6 calendar boundaries (epoch-shift twin), 4 (thorough 12) sunlit/umbra batches with SRP on, 4 (16) "
+                "dropped-while-thrusting behaviours through SpecialPerturbations. Non-trivial = more than one call, a batch, or a bulk call.")
     ctx.assumptions = [
         "REDUCED STRENGTH: for real dynamics the comparisons are relations between implementation runs (and closed-form Kepler for "
         "two-body); TLC supplies the behaviours, the exact-law oracle and validates the conservation traces",
@@ -470,19 +647,26 @@ def run(ctx: Ctx):
         "integrator is compared with an independent closed-form solution at the plain tolerance",
         "conservation: energy and angular momentum logged as integers in 1e-9 relative units; band 1 at rtol 1e-13, "
         "2 + 2*ceil(revolutions) at the shipped tolerances",
+        "solar radiation pressure is discontinuous at the Earth's shadow: in the random sample it is switched on only when every "
+        "column stays sunlit or stays in the umbra for the whole horizon (driver-side cylinder test with margins: penumbra width + "
+        "60 km + 10 km per revolution); a column that crosses the shadow boundary makes batch and separate runs differ by more than "
+        "the integrator tolerance on correct code (shared step sequence) and is not compared with SRP on",
+        "a call that is handed no events must behave like a fresh dynamics object (DropEvents / StaleThrust in Kinematics.tla); "
+        "TwoBody never reads finite_thrust, so on real dynamics only SpecialPerturbations can show a stale thrust",
         "accuracy of perturbed propagation against an external truth is not decided",
     ]
     res, behs = K.run_spec(ctx, "calls", "Kinematics.tla Mode=calls: all call sequences/batches/grids; C03 invariants + behaviours",
                            invs=INV03, **spec_cfg(ctx))
     small = dict(invs=INV03, Mode='"calls"', Horizon=5, MaxCalls=2, Ks="{1}", MaxInterior=1, Laws="LawsOne", Kinds="KindsOne",
-                 StepLens="{1}", MaxSteps=1)
+                 StepLens="{1}", MaxSteps=1, CallerMayDrop="TRUE")
     # spec-level: closed burns too (Semigroup with an end root), and the as-coded deviations break composability
     res2, closed = K.run_spec(ctx, "calls_closed", "Kinematics.tla Mode=calls with closed and open burns (Semigroup with an end root)",
-                              emit="BEHC", BurnChoice='"both"', **small)
+                              emit="BEHC", BurnChoice='"both"', **{**small, "CallerMayDrop": "FALSE"})
     closed = [b for b in closed if 0 < b["burn"]["te"] <= b["hor"]]
     refuted = K.run_as_coded(ctx, "ascoded", ("Semigroup",), BurnChoice='"both"', **small)
+    refuted_stale = K.run_as_coded(ctx, "stale", ("ExactAtBoundaries",), deviation="StaleThrust", BurnChoice='"both"', **small)
     cov = K.run_coverage(ctx, "cov", [a for a in K.ACTIONS if a != "Deliver"], BurnChoice='"both"', **small)
-    ctx.extra["spec_mutants_killed"] = {"EndNeedsLanding(D10)": refuted}
+    ctx.extra["spec_mutants_killed"] = {"EndNeedsLanding(D10)": refuted, "StaleThrust(thrust survives a call without events)": refuted_stale}
     ctx.extra["action_coverage"] = cov
     ctx.extra["behaviours"] = len(behs)
     ctx.extra["exact"] = exact_replay(ctx, behs, rng)
